@@ -38,6 +38,9 @@ func (x *Xlat) typeFacts(v *Term, t types.Type) *Term {
 		return wfSlice(v)
 	case isUnsigned(t) && v.Sort == SInt:
 		return App(">=", SBool, v, IntLit(0))
+	case x.ctx.dtByName[v.Sort] != nil && v.Sort != SSlice:
+		// struct value: slices held in its fields (also of nested struct fields) are well-formed
+		return x.structSliceFacts(v, 0)
 	case v.Sort == SRef && t != nil:
 		// dynamic type: references of different Go types never alias
 		if tag := x.typeTag(t); tag != nil {
@@ -79,6 +82,29 @@ func (x *Xlat) typeTag(t types.Type) *Term {
 	}
 	x.ctx.DeclareFunc(&FuncDecl{Name: "dtype", Params: []Sort{SRef}, Ret: SInt})
 	return IntLit(int64(id))
+}
+
+func (x *Xlat) structSliceFacts(v *Term, depth int) *Term {
+	d := x.ctx.dtByName[v.Sort]
+	if d == nil || depth > 3 {
+		return TTrue
+	}
+	var cs []*Term
+	for _, f := range d.Fields {
+		fv := App(f.Name, f.Sort, v)
+		switch {
+		case f.Sort == SSlice:
+			cs = append(cs, wfSlice(fv))
+		case f.Sort != v.Sort && x.ctx.dtByName[f.Sort] != nil:
+			if c := x.structSliceFacts(fv, depth+1); !c.IsTrue() {
+				cs = append(cs, c)
+			}
+		}
+	}
+	if len(cs) == 0 {
+		return TTrue
+	}
+	return And(cs...)
 }
 
 func wfSlice(s *Term) *Term {
